@@ -182,6 +182,13 @@ fn dispatch_shapes(ctx: &Ctx, rep: &mut Report) {
     .collect();
     shapes.push(many32);
     shapes.push(many33);
+    // every parameter COUNT 1..=34 (the number of parameters never changes which function it is)
+    for k in 1..=34usize {
+        shapes.push(vec!["2"; k].join(";"));
+        if k >= 2 {
+            shapes.push(format!("{}2", ";".repeat(k - 1)));
+        }
+    }
     let mut prefixes: Vec<String> = vec!["".into(), "?".into(), "<".into(), "=".into(), ">".into()];
     let mut inters: Vec<String> = vec!["".into()];
     for i in 0x20u8..=0x2f {
@@ -398,6 +405,50 @@ fn after_foreign(ctx: &Ctx, rep: &mut Report) {
     rep.parts.push(json!({"part":"after-foreign-sequences","sequences":n}));
 }
 
+/// "independent of whatever sequences were parsed before" - however MANY there were: after a
+/// sequence that fills every parameter position, N short sequences (N around every power of
+/// two from 2^6 to 2^17, and around half of it: an ESC-introduced sequence passes two of the
+/// places where a parser may reset itself, an 8-bit one passes one), then sequences that read
+/// positions they do not write.
+fn many_sequences_between(ctx: &Ctx, rep: &mut Report) {
+    let mut ns: Vec<usize> = vec![];
+    for k in 6..=ctx.tier.pick(17u32, 20) {
+        let b = 1usize << k;
+        for d in 0..=3 {
+            ns.extend([b - d, b + d, b / 2 - d.min(b / 2), b / 2 + d]);
+        }
+    }
+    ns.sort();
+    ns.dedup();
+    let fillers = ["\x1b[m", "\u{9b}m", "\x1b[1m", "\x1bM", "\x1b]0;t\x07"];
+    let cases: Vec<(usize, usize)> = ns.iter().flat_map(|&n| (0..fillers.len()).map(move |f| (n, f))).collect();
+    let bad: Vec<String> = cases
+        .par_iter()
+        .filter_map(|&(n, f)| {
+            let r = guarded(|| {
+                let mut p = Parser::new();
+                let mut rp = RefParser::new();
+                let full = format!("\x1b[9;8;7;6:5:4;3;2;1m\x1b[5;7H{}\x1b[HX\x1b[4HX\x1b[rX\x1b[8tX\x1b[;3HX", fillers[f].repeat(n));
+                run_pair(&mut p, &mut rp, &full)
+            });
+            match r {
+                Ok(Ok(())) => None,
+                Ok(Err(e)) => Some(format!("{} x {} between: {}", n, esc(fillers[f]), e)),
+                Err(m) => Some(format!("{} x {}: panic: {}", n, esc(fillers[f]), m)),
+            }
+        })
+        .collect();
+    let n = cases.len() as u64;
+    rep.evaluations += n;
+    rep.traces_validated += n;
+    rep.parts.push(json!({"part":"many-sequences-between","counts":ns.len(),"max_count":ns.last(),"fillers":fillers.len(),"cases":n,"violating":bad.len()}));
+    println!("part many-sequences-between: {} counts up to {} x {} fillers, {} violating", ns.len(), ns.last().unwrap(), fillers.len(), bad.len());
+    if let Some(d) = bad.first() {
+        emit_violation(ctx, rep, "C03", json!({"part":"many-sequences-between","oracle":"dispatch","observed":d}));
+        rep.violations += bad.len() as u64 - 1;
+    }
+}
+
 /// ESC Fe vs its C1 twin from every parser state: same state, same function,
 /// same behaviour for a following `5;6H`.
 fn esc_fe_twins(ctx: &Ctx, rep: &mut Report) {
@@ -501,6 +552,7 @@ pub fn run(ctx: &Ctx) -> Report {
     esc_fe_twins(ctx, &mut rep);
     after_foreign(ctx, &mut rep);
     long_strings(ctx, &mut rep);
+    many_sequences_between(ctx, &mut rep);
     let p = parts!(ctx.tier);
     run_part(ctx, &mut rep, &p);
     super::stream::run(ctx, &mut rep, "C03", "stream-segmentation-through-feed_str", "feed_str-segments-like-the-table", false);
@@ -532,10 +584,11 @@ pub fn replay(ctx: &Ctx, v: &Value) -> bool {
             res.is_err()
         }
         "stream-segmentation-through-feed_str" => super::stream::replay(v, false),
-        "long-strings" | "after-foreign-sequences" => {
+        "long-strings" | "after-foreign-sequences" | "many-sequences-between" => {
             let mut rep = Report::new();
             after_foreign(ctx, &mut rep);
             long_strings(ctx, &mut rep);
+            many_sequences_between(ctx, &mut rep);
             rep.violations > 0
         }
         "esc-fe-twins" => {
